@@ -289,6 +289,10 @@ def check(rep, tier, seed, replay):
             b = steps if (norule and r["result"] != "infrul" and steps <= budget) else budget
             if norule and r["result"] == "infrul":
                 b = min(budget, 3 * steps + 1000)
+            elif r["result"] == "infrul":
+                # a never-halting machine always costs the whole budget: a tenth of it suffices to
+                # falsify (the proof-backed certificates come from the replay / validateInf pass)
+                b = budget // 10
             or_lines.append(f"l0run {b} | {prog}")
             or_meta.append((line, out, r, norule))
     orc = core.run_driver(or_lines)
